@@ -271,8 +271,36 @@ def case_fault(cs, idx):
                 ok, got = False, "position opened at a bad price: %s" % own["a"].position
     elif f == "nan_price_open_position":
         data.iloc[k, 0] = np.nan
-        var = rng.choice(["backtest", "ops", "transact_flat", "fi_rebalance_flat"])
-        if var in ("transact_flat", "fi_rebalance_flat"):
+        var = rng.choice(["backtest", "ops", "transact_flat", "fi_rebalance_flat", "zero_mark_then_nan"])
+        if var == "zero_mark_then_nan" and nd >= 6:
+            # held at a price of exactly 0 for two dates (value and weight 0, position open), then the price goes missing
+            z0 = rng.randint(1, nd - 4)
+            data.iloc[k, 0] = float(data.iloc[0, 0])
+            data.iloc[z0: z0 + 2, 0] = 0.0
+            data.iloc[z0 + 2, 0] = np.nan
+            root = Strategy("s", [], children=[Security(t, multiplier=rng.choice([1, 5])) for t in tk])
+            root.use_integer_positions(integer)
+            root.setup(data)
+            root.update(dts[0])
+            root.adjust(1e6)
+            root.update(dts[0])
+            root.transact(rng.choice([2500, -300]), child="a")
+            root.update(dts[0])
+
+            def go2():
+                for j in range(1, nd):
+                    root.update(dts[j])
+                    root.update(dts[j])
+
+            ok, got = expect(go2, Exception, "latest price is NaN")
+            if ok and root.now != dts[z0 + 2]:
+                ok, got = False, "raised on %s instead of the first missing-price date" % root.now
+            reached = True
+        elif var == "zero_mark_then_nan":
+            var = "transact_flat"
+        if var == "zero_mark_then_nan":
+            pass
+        elif var in ("transact_flat", "fi_rebalance_flat"):
             # a quantity-based trade opens a position in a flat security on a date whose price is missing (a one-day gap)
             from bt.core import FixedIncomeSecurity
 
@@ -334,8 +362,23 @@ def case_fault(cs, idx):
     elif f == "nan_coupon_open_position":
         cp = pd.DataFrame(rs.uniform(0, 0.05, size=data.shape), index=dts, columns=tk)
         cp.iloc[k, 0] = np.nan
-        var = rng.choice(["backtest", "ops"])
-        if var == "backtest":
+        var = rng.choice(["backtest", "ops", "swap_at_zero"])
+        if var == "swap_at_zero":
+            # a par swap (coupon-paying hedge) marked at exactly 0 on the trade date: open position, zero value, zero weight
+            from bt.core import CouponPayingHedgeSecurity
+
+            d2 = data.copy()
+            d2.iloc[:, 0] = 0.0
+            root = FixedIncomeStrategy("s", [], children=[CouponPayingHedgeSecurity(tk[0])] + [CouponPayingSecurity(t) for t in tk[1:]])
+            root.use_integer_positions(integer)
+            root.setup(d2, coupons=cp)
+            root.update(dts[0])
+            root.transact(rng.choice([-400, 250]), child="a")
+            for i in range(0, k):
+                root.update(dts[i])
+            ok, got = expect(lambda: root.update(dts[k]), Exception, "latest coupon is NaN")
+            reached = True
+        elif var == "backtest":
             s = FixedIncomeStrategy("s", [algos.RunOnce(), algos.SelectAll(), algos.WeighEqually(), algos.SetNotional("nv"), algos.Rebalance()],
                                     children=[CouponPayingSecurity(t) for t in tk])
             t = bt.Backtest(s, data, integer_positions=integer, additional_data={"coupons": cp, "nv": pd.Series(1e5, index=dts)})
